@@ -39,15 +39,16 @@ func (p c11plan) String() string {
 }
 
 type c11obs struct {
-	ops        int64
-	results    []string // per call: "ok" | "err:..." | "wrong:..." | "hung"
-	lateCall   string
-	callbacks  int32
-	eventsEnd  string // closed | hung
-	eventsSeen int
-	faultHit   bool
-	verdict    stuck.Verdict
-	dump       string
+	ops            int64
+	results        []string // per call: "ok" | "err:..." | "wrong:..." | "hung"
+	lateCall       string
+	callbacks      int32
+	eventsEnd      string // closed | hung
+	eventsSeen     int
+	faultHit       bool
+	blockedAtClose bool // stall plans: a Send was blocked in its write when the connection was closed
+	verdict        stuck.Verdict
+	dump           string
 }
 
 const c11svc, c11obj = 9, 1
@@ -130,6 +131,16 @@ func c11run(p c11plan, seed int64) c11obs {
 		}
 	}
 
+	stall := p.Kind == "stall-localclose" || p.Kind == "stall-peerclose"
+	stallRelease := make(chan struct{})
+	stalled := make(chan struct{})
+	var srvRead int64
+	if stall {
+		// the peer stops reading after p.At bytes of the client's output and its "socket buffer" holds 8
+		// bytes: a Send blocks in the middle of a write; then the connection is closed (locally / by the peer)
+		a.MaxBuffer = 8
+	}
+
 	// scripted mini-server on end b
 	srvDone := make(chan struct{})
 	go func() {
@@ -165,13 +176,29 @@ func c11run(p c11plan, seed int64) c11obs {
 			return true
 		}
 		first := true
+		readFull := func(buf []byte) bool {
+			if stall {
+				if budget := int64(p.At) - srvRead; int64(len(buf)) > budget {
+					if budget > 0 {
+						io.ReadFull(b, buf[:budget])
+						srvRead += budget
+					}
+					close(stalled)
+					<-stallRelease // stops reading, keeps the connection open
+					return false
+				}
+			}
+			_, err := io.ReadFull(b, buf)
+			srvRead += int64(len(buf))
+			return err == nil
+		}
 		for {
-			if _, err := io.ReadFull(b, hdr); err != nil {
+			if !readFull(hdr) {
 				return
 			}
 			h := rc.ParseHeader(hdr)
 			payload := make([]byte, h.Size)
-			if _, err := io.ReadFull(b, payload); err != nil {
+			if !readFull(payload) {
 				return
 			}
 			if h.Type != qnet.Call {
@@ -236,7 +263,32 @@ func c11run(p c11plan, seed int64) c11obs {
 	close(start)
 	callsDone := make(chan struct{})
 	go func() { wg.Wait(); close(callsDone) }()
+	if stall {
+		go func() {
+			select {
+			case <-callsDone:
+				return
+			case <-stalled:
+			}
+			// give the senders a bounded number of steps to run into the full buffer
+			for y := 0; y < 400 && atomic.LoadInt64(&a.BlockedWrites) == 0; y++ {
+				time.Sleep(25 * time.Microsecond)
+			}
+			if atomic.LoadInt64(&a.BlockedWrites) > 0 {
+				obs.blockedAtClose = true
+			}
+			atomic.StoreInt32(&faultHit, 1)
+			if p.Kind == "stall-localclose" {
+				ep.Close()
+			} else {
+				b.Close()
+			}
+		}()
+	}
 	obs.verdict, obs.dump = stuck.Wait(callsDone, &progress, 2*time.Minute)
+	if obs.verdict != stuck.Returned {
+		close(stallRelease)
+	}
 	if obs.verdict != stuck.Returned {
 		return obs
 	}
@@ -283,6 +335,7 @@ func c11run(p c11plan, seed int64) c11obs {
 	obs.ops = a.Ops()
 	ep.Close()
 	b.Close()
+	close(stallRelease)
 	<-srvDone
 	return obs
 }
@@ -432,7 +485,7 @@ func c11real(c *wk.Ctx, i int, rng *rand.Rand) {
 }
 
 func c11(c *wk.Ctx) {
-	c.Note("rule", "fault enumeration over one scenario: a real bus.Client on a harness stream, OnDisconnect callback, one subscription, K in {1,3,8} concurrent calls answered by a scripted peer (one event, then each reply). The fault-free run counts the client's I/O operations (reads per fragment, one write per frame); plans: a fault (EOF, reset, short count + error; sticky) at every operation index, peer close after every byte count of its output, local Close() at every operation, a second fault at a later operation (thorough), and the early-reply schedule (Send returns only after the reply was consumed by the reader); each under whole-read and fragmented-read delivery; stream real = the same oracle over unix and tcp with the real server: 1-6 calls parked inside the method body, then Server.Terminate() or the client closing its session. Oracle: every call returns (quiescence detector), success only with its own reply; without a fault every call succeeds; after the fault later calls fail, the events channel is closed, the disconnect callback ran exactly once. Distinct non-trivial = distinct plans whose fault was actually reached while a call or the subscription was pending.")
+	c.Note("rule", "fault enumeration over one scenario: a real bus.Client on a harness stream, OnDisconnect callback, one subscription, K in {1,3,8} concurrent calls answered by a scripted peer (one event, then each reply). The fault-free run counts the client's I/O operations (reads per fragment, one write per frame); plans: a fault (EOF, reset, short count + error; sticky) at every operation index, peer close after every byte count of its output, local Close() at every operation, a second fault at a later operation (thorough), a peer that stops reading after every byte count of the client's output (8-byte buffer: a Send is blocked mid-write) followed by a local Close() or a peer close, and the early-reply schedule (Send returns only after the reply was consumed by the reader); each under whole-read and fragmented-read delivery; stream real = the same oracle over unix and tcp with the real server: 1-6 calls parked inside the method body, then Server.Terminate() or the client closing its session. Oracle: every call returns (quiescence detector), success only with its own reply; without a fault every call succeeds; after the fault later calls fail, the events channel is closed, the disconnect callback ran exactly once. Distinct non-trivial = distinct plans whose fault was actually reached while a call or the subscription was pending.")
 	type cfg struct{ K, Frag int }
 	cfgs := []cfg{{1, 0}, {1, 7}, {3, 0}, {3, 5}}
 	if c.Thorough() {
@@ -462,6 +515,15 @@ func c11(c *wk.Ctx) {
 		for j := 0; j <= out; j += step {
 			plans = append(plans, c11plan{K: cf.K, Frag: cf.Frag, Kind: "peerclose", At: j})
 			plans = append(plans, c11plan{K: cf.K, Frag: cf.Frag, Kind: "peerhalfclose", At: j})
+		}
+		// client output: K calls of 28 + ~25 bytes; the peer stalls after j bytes of it
+		sstep := map[int]int{1: 1, 3: 2, 8: 7}[cf.K]
+		if c.Thorough() {
+			sstep = 1
+		}
+		for j := 0; j <= cf.K*56; j += sstep {
+			plans = append(plans, c11plan{K: cf.K, Frag: cf.Frag, Kind: "stall-localclose", At: j})
+			plans = append(plans, c11plan{K: cf.K, Frag: cf.Frag, Kind: "stall-peerclose", At: j})
 		}
 		if c.Thorough() {
 			for at := 0; at < n; at += 2 {
@@ -528,6 +590,9 @@ func c11(c *wk.Ctx) {
 		if obs.faultHit || p.Kind == "none" {
 			c.Nontrivial(wk.Hash64("C11", p.String()))
 			c.Count("plans_fault_reached_"+p.Kind, 1)
+			if obs.blockedAtClose {
+				c.Count("plans_closed_while_a_send_was_blocked_mid_write", 1)
+			}
 		} else {
 			c.Count("plans_fault_not_reached", 1)
 		}
